@@ -159,6 +159,9 @@ func c38GenReq(rt *rapid.T, idx int) *c38Req {
 	setHeader := func(name string) {
 		k := randCase(rt, name)
 		v := c38ValueGen.Draw(rt, "value")
+		if rapid.IntRange(0, 9).Draw(rt, "longValue") == 0 {
+			v += strings.Repeat("x", rapid.IntRange(50, 400).Draw(rt, "extra"))
+		}
 		ck := textproto.CanonicalMIMEHeaderKey(k)
 		switch rapid.IntRange(0, 3).Draw(rt, "hop") {
 		case 0:
@@ -367,7 +370,18 @@ func c38Run(rt *rapid.T, rec *ev.Rec) {
 		reqs[i] = c38GenReq(rt, i)
 		trace = append(trace, fmt.Sprintf("stream %d %s: %s", 2*i+1, reqs[i].method, strings.Join(reqs[i].desc, "; ")))
 	}
-	r, ok := newRig(nil, []xh2.Setting{{ID: xh2.SettingInitialWindowSize, Val: 1 << 20}}, nil)
+	// A third of the clients advertise a small SETTINGS_MAX_HEADER_LIST_SIZE (advisory, RFC
+	// 7540 6.5.2). A server may deliver a larger header list anyway (bfe does) or refuse it by
+	// resetting that stream; either way every other response on the connection must still
+	// decode to exactly the handler's fields (the HPACK state is connection wide).
+	settings := []xh2.Setting{{ID: xh2.SettingInitialWindowSize, Val: 1 << 20}}
+	mhls := int64(0)
+	if rapid.IntRange(0, 2).Draw(rt, "advertiseMHLS") == 0 {
+		mhls = int64(rapid.IntRange(40, 700).Draw(rt, "maxHeaderListSize"))
+		settings = append(settings, xh2.Setting{ID: xh2.SettingMaxHeaderListSize, Val: uint32(mhls)})
+		trace = append(trace, fmt.Sprintf("client SETTINGS max_header_list_size=%d", mhls))
+	}
+	r, ok := newRig(nil, settings, nil)
 	if !ok {
 		rec.Excluded("setup-incomplete")
 		return
@@ -426,7 +440,7 @@ func c38Run(rt *rapid.T, rec *ev.Rec) {
 		}
 		ended := func() bool {
 			for _, e := range r.log {
-				if e.Stream == id && e.End {
+				if e.Stream == id && (e.End || e.Type == xh2.FrameRSTStream) {
 					return true
 				}
 			}
@@ -478,6 +492,12 @@ func c38Run(rt *rapid.T, rec *ev.Rec) {
 		// A Write may be refused only for HEAD / a status without body or once the handler's own
 		// declared Content-Length is exceeded; every other Write must be accepted in full
 		// (the body is then the concatenation of what was accepted).
+		resetSeen := false // the server reset the stream: judged below, Writes fail legitimately
+		for _, e := range frames {
+			if e.Type == xh2.FrameRSTStream {
+				resetSeen = true
+			}
+		}
 		declCL := int64(-1)
 		if v := m.snap["Content-Length"]; len(v) > 0 {
 			if n, err := strconv.ParseInt(v[0], 10, 64); err == nil {
@@ -494,7 +514,7 @@ func c38Run(rt *rapid.T, rec *ev.Rec) {
 			l := len(q.ops[oi].Data)
 			cum += int64(l)
 			// (HEAD: the body is discarded; bfe reports "short write" after the first flush)
-			mayRefuse := bodyless || (declCL >= 0 && cum > declCL)
+			mayRefuse := bodyless || (declCL >= 0 && cum > declCL) || resetSeen
 			if !mayRefuse && (res[oi].N != l || res[oi].Err != "") && !refused {
 				refused = true
 				fail("write-refused", "Write of %d octets (total %d so far, handler declared content-length %d, status %d) returned n=%d err=%q", l, cum, declCL, m.status, res[oi].N, res[oi].Err)
@@ -574,6 +594,32 @@ func c38Run(rt *rapid.T, rec *ev.Rec) {
 		rec.Sample(map[string]any{"request": trace[i]})
 
 		// ---- the frames
+		for _, e := range frames {
+			if e.Type != xh2.FrameRSTStream {
+				continue
+			}
+			// generous estimate of the header lists the server would have to send (RFC size:
+			// name + value + 32 per field, plus up to three server-added fields)
+			est := int64(len(":status") + 3 + 32 + 3*(32+45))
+			for _, f := range wantHdr {
+				est += int64(len(f.k) + len(f.v) + 32)
+			}
+			estT := int64(0)
+			for _, f := range wantTrailer {
+				estT += int64(len(f.k) + len(f.v) + 32)
+			}
+			if mhls > 0 && (est > mhls || estT > mhls) {
+				classes["reset-header-list-over-advertised-max"] = true
+				rec.Class("reset-header-list-over-advertised-max")
+			} else {
+				fail("response-reset", "the server reset the stream (code %d) although the handler completed its response; frames: %v", e.Code, frames)
+			}
+			gotEnd = false
+			break
+		}
+		if len(frames) > 0 && frames[len(frames)-1].Type == xh2.FrameRSTStream && classes["reset-header-list-over-advertised-max"] {
+			continue
+		}
 		if !gotEnd {
 			key := "no-end-stream"
 			if unsetTrailers && q.method != "HEAD" {
